@@ -360,6 +360,10 @@ func (c07) RunCase(c *core.Ctx) {
 		c07KeptLists(c)
 		return
 	}
+	if c.Case%64 == 46 {
+		c07OddShapes(c)
+		return
+	}
 	if c.Case%32 == 11 {
 		// the same call twice, the caller editing its first result in between: the second result does not depend on that
 		name, problem := dDefaultsIndependent(c.R)
@@ -379,6 +383,87 @@ func (c07) RunCase(c *core.Ctx) {
 	default:
 		c07Hygiene(c)
 	}
+}
+
+// c07OddShapes: executions over less common shapes - a schema key that names an embedded struct itself, a callback that panics below
+// a struct or a slice (recovered by the caller), a struct keyed by the empty string - followed by plain executions whose results are
+// known: their paths, issues and destinations are the ones they have when run first thing in a process.
+type C07Audit struct{ CreatedBy string }
+type c07Doc struct {
+	C07Audit
+	Title string
+	Body  string
+}
+
+func c07OddShapes(c *core.Ctx) {
+	docSchema := z.Struct(z.Schema{"C07Audit": z.Struct(z.Schema{"createdBy": z.String().Required()}), "title": z.String().Required(), "body": z.String().Required()})
+	panicking := z.Struct(z.Schema{"address": z.Struct(z.Schema{"zip": z.String().TestFunc(func(any, z.Ctx) bool { panic("callback bug") })}), "lines": z.Slice(z.String().TestFunc(func(v any, _ z.Ctx) bool {
+		if v.(string) == "boom" {
+			panic("callback bug")
+		}
+		return true
+	}))})
+	type login struct{ User, Pass string }
+	loginSchema := z.Struct(z.Schema{"user": z.String().Min(3), "pass": z.String().Min(8)})
+	probe := func() string {
+		var n int
+		var l login
+		var tags []string
+		a := z.Int().GT(0).Parse(-1, &n)
+		b := loginSchema.Parse(map[string]any{"user": "a", "pass": "b"}, &l)
+		lv := login{User: "a", Pass: "long enough"}
+		b2 := loginSchema.Validate(&lv)
+		d := z.Slice(z.String().Min(2)).Parse([]any{"ok", "x"}, &tags)
+		all1, _ := obs.CanonMap(b)
+		all2, _ := obs.CanonMap(b2)
+		all3, _ := obs.CanonMap(d)
+		f := func(ci obs.CI) string { return ci.Key + "|" + ci.Path + "|" + ci.Code }
+		return obs.Multiset(obs.CanonList(a), f) + " / " + obs.Multiset(all1, f) + " / " + obs.Multiset(all2, f) + " / " + obs.Multiset(all3, f)
+	}
+	// key|path|code of every issue, known in advance (not taken from a first run in this process, which may already follow such executions)
+	const want = "||gt / pass|pass|min\nuser|user|min / user|user|min / [1]|[1]|min"
+	for round := 0; round < 12; round++ {
+		var what string
+		switch c.R.Intn(4) {
+		case 0:
+			what = "Validate of a zero struct through a schema key that names its embedded struct"
+			var d c07Doc
+			docSchema.Validate(&d)
+		case 1:
+			what = "Parse through a schema key that names the destination's embedded struct"
+			var d c07Doc
+			docSchema.Parse(map[string]any{"C07Audit": map[string]any{}, "title": "t"}, &d)
+		case 2:
+			what = "Parse whose TestFunc panics below a nested struct (recovered by the caller)"
+			func() {
+				defer func() { _ = recover() }()
+				var d struct {
+					Address struct{ Zip string }
+					Lines   []string
+				}
+				panicking.Parse(map[string]any{"address": map[string]any{"zip": "1"}}, &d)
+			}()
+		default:
+			what = "Parse whose TestFunc panics at a slice element (recovered by the caller)"
+			func() {
+				defer func() { _ = recover() }()
+				var d struct {
+					Address struct{ Zip string }
+					Lines   []string
+				}
+				panicking.Parse(map[string]any{"lines": []any{"a", "boom"}}, &d)
+			}()
+		}
+		c.Eval(5)
+		for k := 0; k < 3; k++ {
+			if got := probe(); got != want {
+				c.Violation("execution-not-isolated|after-an-unusual-execution", map[string]any{"earlier_execution": what, "later_executions": "Int().GT(0).Parse(-1); {user: Min(3), pass: Min(8)}.Parse / .Validate; Slice(String().Min(2)).Parse([ok, x])", "results_when_run_first": want, "results_now": got})
+				return
+			}
+		}
+		c.NonTrivial(fpf("odd|%s|%d", what, round))
+	}
+	c.Count("odd_shape_histories", 1)
 }
 
 // c07LiveLanguages: "the global configuration at that moment": the language maps handed to i18n are read when an issue is formatted,
